@@ -124,10 +124,10 @@ def parse_terse(out):
         st = "unknown"
         if "VERIFICATION:- SUCCESSFUL" in txt:
             st = "ok"
+        elif "CBMC timed out" in txt or "TIMEOUT" in txt.upper() or "timed out" in txt:
+            st = "timeout"
         elif "VERIFICATION:- FAILED" in txt:
             st = "failed"
-        elif "TIMEOUT" in txt.upper() or "timed out" in txt:
-            st = "timeout"
         m = re.search(r"Verification Time: ([0-9.]+)s", txt)
         t = float(m.group(1)) if m else 0.0
         m = re.search(r"\*\* (\d+) of (\d+) failed", txt)
@@ -421,7 +421,8 @@ def main():
                 undecided.append((o.id, "harness crate does not build against the current tree"))
             continue
         # individual re-runs (with concrete playback) of everything that did not pass, in parallel
-        need = sorted({o.target for o in group if res.get(o.target) is not None and not (
+        # (a harness that ran into the time limit is not run a second time: it is undecided)
+        need = sorted({o.target for o in group if res.get(o.target) is not None and res[o.target]["status"] != "timeout" and not (
             res[o.target]["status"] == "ok" and res[o.target]["covers_sat"] == res[o.target]["covers"] and res[o.target]["checks"] > 0)})
         single_out = {}
         if need:
@@ -438,6 +439,11 @@ def main():
             if r["status"] == "ok" and r["covers_sat"] == r["covers"] and r["checks"] > 0:
                 results[o.id] = dict(status="discharged", backend="kani/cbmc+cadical", time_s=r["time"], checks=r["checks"],
                                      covers=r["covers"])
+                continue
+            if r["status"] == "timeout":
+                why = f"solver time limit ({timeout_s} s) reached"
+                undecided.append((o.id, why))
+                results[o.id] = dict(status="undecided", reason=why)
                 continue
             # triage individually
             out = single_out[o.target]
